@@ -282,6 +282,15 @@ def annotation_before_binder(F, rep):
                             seq.append(("ty", n))
                 first_push = next((i for i, x in enumerate(seq) if x[0] == "push"), None)
                 late = [x[1] for i, x in enumerate(seq) if x[0] == "ty" and first_push is not None and i > first_push]
+                # a loop (or the closure of an iterator adaptor) that resolves a type *and* pushes a binder in one iteration
+                # resolves the next iteration's type with the previous binder in scope: `fn Point: int, p: Point`
+                for lp in nodes(arm["body"]):
+                    if lp.get("k") in ("ForLoop", "While", "Loop", "Closure"):
+                        inner = [x for x in nodes(lp.get("body")) if x.get("k") in ("Call", "MethodCall")]
+                        pushes = [x for x in inner if callee(x) == R + "push_var"]
+                        tys = [x for x in inner if callee(x) in TYFNS]
+                        if pushes and tys:
+                            late.append(tys[0])
                 n_ty = len([x for x in seq if x[0] == "ty"])
                 rep.ob("DECL-ORDER", "Resolver::%s|%s|annotation-before-binder" % (fname, last(vp)), n_ty > 0 and not late,
                        ("the %d type resolution(s) of a %s happen before any of its binders is pushed" % (n_ty, last(vp))) if n_ty and not late else
